@@ -73,6 +73,15 @@ def caps(res, df, params, date):
         yield "elterngeld<=max+bonuses", c["elterngeld_m"], (params["elterngeld"]["höchstbetrag"]
                                                              + c["elterngeld_geschwisterbonus_m"].to_numpy()
                                                              + c["elterngeld_mehrlingsbonus_m"].to_numpy())
+    if has("elterngeld_m", "elterngeld_geschwisterbonus_m", "elterngeld_mehrlingsbonus_m", "_elterngeld_anz_mehrlinge_fg"):
+        eg = params["elterngeld"]
+        # caps on the bonuses themselves, from named parameters: the sibling bonus is 10 % of an
+        # amount that is at most faktor * max. considered income (the replacement rate exceeds
+        # `faktor` only for net incomes below 1000 EUR) and at least the statutory minimum bonus
+        sib_cap = max(eg["geschwisterbonus_minimum"],
+                      eg["geschwisterbonus_aufschlag"] * max(eg["faktor"] * eg["max_zu_berücksichtigendes_einkommen"], eg["höchstbetrag"]))
+        yield "geschwisterbonus<=10%_of_max_base", c["elterngeld_geschwisterbonus_m"], sib_cap
+        yield "mehrlingsbonus<=bonus*multiples", c["elterngeld_mehrlingsbonus_m"], eg["mehrlingbonus"] * np.maximum(c["_elterngeld_anz_mehrlinge_fg"].to_numpy(), 0)
     if has("kindergeld_m", "kindergeld_anz_ansprüche"):
         kg = params["kindergeld"]["kindergeld"]
         top = max(kg.values()) if isinstance(kg, dict) else float(kg)
